@@ -103,6 +103,48 @@ def _flagged(w, ev, slot, name, do, expected, oracle, approx=None,
     twin = bool(ev.get('twin', 0))
     refuse = isinstance(expected, ModelError)
     out = []
+    # F6: the 'empty' kind set to 'raise' by a scoped override around an
+    # operation that empties the table: TableException must come out, the
+    # profile must be restored, a non-in-place call must leave everything
+    # untouched, an in-place call must leave a coherent receiver
+    f6 = bool(ev.get('f6')) and ev.get('fault') is None and \
+        name in ('filter', 'remove_empty') and \
+        not refuse
+    f6_raises = f6 and expected.is_empty()
+    if f6:
+        from biom.err import errstate
+        from biom.exception import TableException
+        plain_do = do
+        w.stats['fault.F6.armed'] += 1
+
+        def do(real, inpl):
+            with errstate(empty='raise'):
+                return plain_do(real, inpl)
+    if f6_raises:
+        w.stats['fault.F6.fired'] += 1
+        w.case('f6.empty_raise', name, slot, inplace=inplace, twin=twin)
+        if twin or not inplace:
+            status, res = _call(lambda: do(slot.real, False))
+            if status != 'exc' or not isinstance(res, TableException):
+                w.fail(oracle + '.f6', '%s(inplace=False) under errstate('
+                       'empty=raise) emptied the table but %s'
+                       % (name, 'returned' if status == 'ok' else
+                          'raised %r' % (res,)))
+            w.expect_unchanged(slot, oracle + '.receiver_changed',
+                               '%s(inplace=False) refused by the profile'
+                               % name)
+        if inplace:
+            _mutating(w, slot)
+            status, res = _call(lambda: do(slot.real, True))
+            if status != 'exc' or not isinstance(res, TableException):
+                w.fail(oracle + '.f6', '%s(inplace=True) under errstate('
+                       'empty=raise) emptied the table but %s'
+                       % (name, 'returned' if status == 'ok' else
+                          'raised %r' % (res,)))
+            w.adopt(slot)
+            if slot.ref.is_empty():
+                w.retire(slot)
+        return '%s:f6-raised' % name
     w.case(oracle, name, slot, ax=ev.get('ax', 0) & 1, inplace=inplace,
            twin=twin, fault=ev.get('fault') is not None, refuse=refuse)
     w.case('inplace.equiv' if inplace else 'noninplace.receiver_changed',
@@ -134,7 +176,7 @@ def _flagged(w, ev, slot, name, do, expected, oracle, approx=None,
                 w.fail(oracle + '.accepted', '%s(inplace=False) accepted: %s'
                        % (name, expected))
             if result is slot.real:
-                w.fail('noninplace.returned_self',
+                w.fail(oracle + '.returned_self',
                        '%s(inplace=False) returned the receiver' % name)
             w.expect_unchanged(slot, oracle + '.receiver_changed',
                                '%s(inplace=False)' % name)
@@ -172,7 +214,7 @@ def _flagged(w, ev, slot, name, do, expected, oracle, approx=None,
                 w.fail(oracle + '.accepted', '%s(inplace=True) accepted: %s'
                        % (name, expected))
             if result is not slot.real:
-                w.fail('inplace.returns_self',
+                w.fail(oracle + '.inplace_returns_other',
                        '%s(inplace=True) did not return the receiver' % name)
             compare(slot.real, '%s(inplace=True) receiver' % name)
             if post:
@@ -221,7 +263,7 @@ def _newtable(w, ev, slot, name, do, expected, oracle, args=(), adopt=None,
         w.fail(oracle + '.accepted', '%s accepted: %s' % (name, expected))
     for s in others:
         if res is s.real:
-            w.fail('newtable.returned_input',
+            w.fail(oracle + '.returned_input',
                    '%s returned one of its inputs' % name)
         w.expect_unchanged(s, oracle + '.input_changed', name)
     if adopt is not None:
